@@ -297,6 +297,7 @@ fn run_case(c: &Case, rep: &mut Report) {
         b.fail_once_at = Some((b.log.len() + (h >> 8) as usize % 24, (h >> 20) as u8 % crate::doubles::N_BUS_ERROR_FLAVOURS));
     }
     let pages: Vec<Page<'static>> = c.pages.iter().map(|(w, h, b)| ctl::page_from_image(*w, *h, b.clone())).collect();
+    let (mut held_the_bus, mut panicked_on_held_bus) = (false, false);
     // a third of the page lists reach send_pages as an adaptor iterator (a filter that keeps everything: its size_hint
     // has a lower bound of 0) instead of a slice
     let out = if c.op == Op::SendPages && c.fail_attempts == 0 && c.nack.is_none() && !c.virtual_sign && c.prior.is_none() && fnv(c.sig().as_bytes()) % 5 == 1 {
@@ -313,6 +314,39 @@ fn run_case(c: &Case, rep: &mut Report) {
             Ok(Err(flipdot::SignError::UnexpectedResponse { expected, actual })) => SignOut::Protocol { expected, actual },
             Ok(Err(other)) => SignOut::Bus(format!("unmatched SignError variant: {:?}", other)),
             Err(p) => SignOut::Panic(format!("{} at {}", p.msg, crate::util::short_loc(&p.loc))),
+        }
+    } else if c.op == Op::SendPages && c.pages.len() >= 2 && h % 11 == 5 {
+        // an application that breaks the rules: its page list KEEPS a shared borrow of the bus from one pull to the next
+        // (every second gap between pulls), so the controller cannot get at the bus for part of the transfer. The call
+        // may panic on the borrow — the application's fault — but if it returns, what went over the bus must still be
+        // a proper transfer: nothing left out, nothing counted that was not sent.
+        held_the_bus = true;
+        rep.count("page_lists_that_hold_on_to_the_bus_between_pulls");
+        let held: RefCell<Option<std::cell::Ref<'_, TraceBus>>> = RefCell::new(None);
+        let r = crate::util::catch(std::panic::AssertUnwindSafe(|| {
+            sign.send_pages(pages.iter().filter(|p| {
+                let mut slot = held.borrow_mut();
+                if slot.is_some() {
+                    *slot = None;
+                } else {
+                    *slot = Some(tb.borrow());
+                }
+                p.width() < u32::MAX
+            }))
+        }));
+        held.borrow_mut().take();
+        match r {
+            Ok(Ok(flipdot::PageFlipStyle::Automatic)) => SignOut::OkStyle { automatic: true },
+            Ok(Ok(flipdot::PageFlipStyle::Manual)) => SignOut::OkStyle { automatic: false },
+            Ok(Err(flipdot::SignError::Bus { source })) => SignOut::Bus(source.to_string()),
+            Ok(Err(flipdot::SignError::UnexpectedResponse { expected, actual })) => SignOut::Protocol { expected, actual },
+            Ok(Err(other)) => SignOut::Bus(format!("unmatched SignError variant: {:?}", other)),
+            Err(p) if !p.msg.to_lowercase().contains("borrow") => SignOut::Panic(format!("{} at {}", p.msg, crate::util::short_loc(&p.loc))),
+            Err(_) => {
+                rep.count("calls_that_panicked_because_the_application_held_the_bus");
+                panicked_on_held_bus = true;
+                SignOut::Bus("the application held the bus: the call panicked on the borrow".into())
+            }
         }
     } else if c.op == Op::SendPages && fnv(c.sig().as_bytes()) % 3 == 0 {
         rep.count("page_lists_passed_as_adaptor_iterators");
@@ -350,6 +384,11 @@ fn run_case(c: &Case, rep: &mut Report) {
     let log = std::mem::take(&mut tb.borrow_mut().log);
     let (xop, items): (usize, Vec<Vec<u8>>) = if c.op == Op::Configure { (O_RECV_CFG, vec![BLOCKS[c.ty].to_vec()]) } else { (O_RECV_PIX, c.pages.iter().map(|p| p.2.clone()).collect()) };
     let mut bad = check_trace(&log, c.own, xop, &items, rep);
+    if panicked_on_held_bus {
+        // the call died where the application stood in its way: what was sent up to there is judged, the missing rest is not
+        bad.retain(|(_, what)| !(what.ends_with("end of log") || what.ends_with("came nothing") || what.starts_with("no acknowledged transfer request")));
+    }
+    let _ = held_the_bus;
     if tb.borrow().failed {
         // the bus failed during this call: the log may end anywhere (and must end at the failure — C11 checks that); only
         // what WAS sent is judged here
@@ -604,6 +643,7 @@ pub fn run(ctx: &Ctx) -> Outcome {
         floor("all fixed cases ran (11 types x 4 addresses x 0..3 failing attempts x 2 sign sides x 2 operations)", report.get("cases/configure_all_types") == 352 && report.get("cases/send_pages_all_types") == 352, report.get("cases/send_pages_all_types")),
         floor("page lists that can be walked only once", report.get("page_lists_that_can_be_walked_only_once") > 500, report.get("page_lists_that_can_be_walked_only_once")),
         floor("page lists whose iterator borrows the bus (shared and mutably) every time a page is pulled", report.get("page_lists_whose_iterator_looks_at_the_bus") > 500, report.get("page_lists_whose_iterator_looks_at_the_bus")),
+        floor("page lists of an application that holds on to the bus between pulls (a panic on the borrow is its own fault; a call that returns must have sent a proper transfer)", report.get("page_lists_that_hold_on_to_the_bus_between_pulls") > 200, format!("{} lists, {} calls panicked", report.get("page_lists_that_hold_on_to_the_bus_between_pulls"), report.get("calls_that_panicked_because_the_application_held_the_bus"))),
         floor("calls that met a bus failing once, somewhere in the call", report.get("calls_that_met_a_one_shot_bus_error") > 500, report.get("calls_that_met_a_one_shot_bus_error")),
         floor("page lists handed over as adaptor iterators", report.get("page_lists_passed_as_adaptor_iterators") > 1000, report.get("page_lists_passed_as_adaptor_iterators")),
         floor("multi-page transfers", report.get("multi_page_transfers") > 0, report.get("multi_page_transfers")),
